@@ -514,6 +514,10 @@ func (e *Env) call(x *ECall) SVal {
 			e.fail("val() needs a *BigInt")
 		}
 		return iv(e.g.bigVal(e.cur, v.T, v.Ty.Elem))
+	case "backing":
+		need(1)
+		v := e.eval(args[0])
+		return iv(e.g.load(e.cur, "MathBig.backing", v.T, SInt))
 	case "rep":
 		need(1)
 		v := e.eval(args[0])
@@ -539,6 +543,22 @@ func (e *Env) call(x *ECall) SVal {
 			cs = append(cs, Eq(e.g.load(e.cur, lf.Key, Add(a.T, IntLit(lf.Off)), lf.Sort), e.g.load(e.old, lf.Key, Add(b.T, IntLit(lf.Off)), lf.Sort)))
 		}
 		return bv(And(cs...))
+	}
+	if strings.HasPrefix(x.Fn, "uf_") {
+		// uninterpreted specification function over integers (e.g. the result of a math/big operation
+		// whose arithmetic meaning the proof does not need): declared on first use
+		var ts []Term
+		var sorts []string
+		for _, a := range args {
+			ts = append(ts, e.integer(a))
+			sorts = append(sorts, "Int")
+		}
+		fname := fmt.Sprintf("%s_%d", x.Fn, len(args))
+		if !e.g.declared[fname] {
+			e.g.declared[fname] = true
+			e.g.decls = append(e.g.decls, fmt.Sprintf("(declare-fun %s (%s) Int)", fname, strings.Join(sorts, " ")))
+		}
+		return iv(app(SInt, fname, ts...))
 	}
 	m := e.g.W.spec.Macros[x.Fn]
 	if m == nil {
